@@ -6,11 +6,7 @@ import os
 HERE = os.path.dirname(os.path.abspath(__file__))
 VERIF = os.path.dirname(HERE)
 
-NOT_APPLICABLE = {
-    'C37': "The subject is Scala floating-point code (stats/package.scala, LeveneHaldane.scala) that cannot be compiled or run in this "
-           "sandbox (no Scala toolchain), and the claim is tolerance-level agreement of lgamma/exp/log numerics that Lean's kernel "
-           "cannot reason about; with no executable implementation neither a correspondence nor a replay is possible.",
-}
+NOT_APPLICABLE = {}   # C37 was listed here until its translator-tied check (harness/props/c37.py) was built
 NOT_BUILT = "machine-checked-proof check not built yet in this tree (see DESIGN.md section 4 for the planned model, theorems and tie); not claimed"
 
 
